@@ -180,8 +180,11 @@ TEXT = {
         "technique": "Lean 4 proof (case analysis / induction over the verifier loop) + differential correspondence: predict, record, verify",
     },
     "C10": {
-        "text": "This check covers layer (a) of C10 only - the path codec (the verification layer, every changed path that a file rule "
-                "matches is verified, is C10b). git's output formats (ls-tree, ls-tree -r, --name-only with C-style quoting under the default "
+        "text": "Layer (b), verification (model Verify.lean, theorems Props/C10b.lean, for every history, policy and variant): acceptance of "
+                "an entry under a policy with file rules means verifyObject accepted EVERY path changed by EVERY commit reachable from the "
+                "new target and not from the previous one - linear, merge and root commits alike (verifyPaths_all, C10_all_paths, "
+                "C10_entry_checks_all_commits, commitsBetween_spec); the histories with file rules generated for C01 tie this model to the "
+                "real code. Layer (a), the path codec, is what this check's own harness exercises: git's output formats (ls-tree, ls-tree -r, --name-only with C-style quoting under the default "
                 "core.quotePath, and the -z forms) and gittuf's parsers exactly as coded (whole-output TrimSpace, split at newline, at blank, at "
                 "tab) are executable Lean functions over byte strings. Proved: the NUL-delimited readers return every NUL-free name verbatim "
                 "(paths_roundtrip_z, paths_verbatim_z) and GetFilePathsChangedByCommit built on them returns exactly the prescribed list for "
